@@ -3,6 +3,7 @@ package roverif
 import (
 	"context"
 	"fmt"
+	"math"
 	"time"
 
 	"github.com/samber/ro"
@@ -23,6 +24,9 @@ func genAttempt(g *Gen, base int, ending string, timed bool) []Step {
 	t := Step{K: ending}
 	if ending == "E" {
 		t.V = base % 7
+		if g.Bool(0.12) {
+			t.V = g.PickInt(WrapsDeadline, WrapsCanceled) // the attempt fails with an error that wraps a context error of its own
+		}
 	}
 	if timed {
 		t.Gap = g.PickInt(0, 1)
@@ -54,6 +58,9 @@ func init() {
 			switch sc.Sub {
 			case "Retry":
 				sc.SetInt("max", g.Range(0, 3))
+				if g.Bool(0.1) {
+					sc.SetInt("max", -1) // the largest budget there is (math.MaxUint64): never spent
+				}
 				sc.SetInt("reset", g.Intn(2))
 				sc.SetInt("delay", g.PickInt(0, 0, 1, 2))
 				if g.Bool(0.3) {
@@ -113,6 +120,9 @@ func c15Model(sc *Scn) (out []N, attempts int) {
 	switch sc.Sub {
 	case "Retry":
 		max, reset := sc.Int("max", 0), sc.Int("reset", 0) == 1
+		if max < 0 {
+			max = 0 // a budget that cannot be spent
+		}
 		retries := 0
 		cancelAt := sc.Int("cancel", 0)
 		for i := 0; ; i++ {
@@ -220,6 +230,13 @@ func c15Model(sc *Scn) (out []N, attempts int) {
 	panic("c15 model: " + sc.Sub)
 }
 
+func c15MaxRetries(sc *Scn) uint64 {
+	if m := sc.Int("max", 0); m >= 0 {
+		return uint64(m)
+	}
+	return math.MaxUint64
+}
+
 // c15Expired is a context whose end is reported the way an expired deadline is.
 type c15Expired struct{ context.Context }
 
@@ -252,7 +269,7 @@ func runC15(e *Env) {
 		}
 		switch sc.Sub {
 		case "Retry":
-			o = ro.RetryWithConfig[int](ro.RetryConfig{MaxRetries: uint64(sc.Int("max", 0)), ResetOnSuccess: sc.Int("reset", 0) == 1, Delay: time.Duration(sc.Int("delay", 0)) * Unit})(s.Obs())
+			o = ro.RetryWithConfig[int](ro.RetryConfig{MaxRetries: c15MaxRetries(sc), ResetOnSuccess: sc.Int("reset", 0) == 1, Delay: time.Duration(sc.Int("delay", 0)) * Unit})(s.Obs())
 		case "RepeatWith":
 			o = ro.RepeatWith[int](int64(sc.Int("count", 1)))(s.Obs())
 		case "DoWhile":
